@@ -26,7 +26,8 @@ def make_copy(mut):
     s = open(p).read()
     if s.count(mut["old"]) != 1:
         shutil.rmtree(d)
-        raise SystemExit(f"mutant {mut['id']}: pattern occurs {s.count(mut['old'])} times in {mut['file']}")
+        print(f"SKIP mutant {mut['id']}: pattern occurs {s.count(mut['old'])} times in {mut['file']} (catalogue out of date)")
+        return None
     open(p, "w").write(s.replace(mut["old"], mut["new"]))
     return d
 
@@ -37,6 +38,7 @@ def main():
     ap.add_argument("--props")
     ap.add_argument("--runs", type=int, default=None)
     ap.add_argument("--tests", action="store_true", help="also run the repository's test suite on each mutant")
+    ap.add_argument("--resume", action="store_true", help="skip mutants already present in the output file")
     ap.add_argument("--out", default=os.path.join(ROOT, "audit", "results.json"))
     args = ap.parse_args()
     only = set(args.only.split(",")) if args.only else None
@@ -50,7 +52,12 @@ def main():
         targets = [p for p in mut["props"] if not props or p in props]
         if not targets:
             continue
+        if args.resume and mut["id"] in results and all(t in results[mut["id"]].get("checks", {}) for t in targets):
+            continue
         d = make_copy(mut)
+        if d is None:
+            results.setdefault(mut["id"], {"note": mut["note"], "file": mut["file"], "checks": {}})["pattern_missing"] = True
+            continue
         try:
             rec = results.setdefault(mut["id"], {"note": mut["note"], "file": mut["file"], "checks": {}})
             if args.tests:
